@@ -3,7 +3,7 @@
 // Quick flavour: `Key::Meta(name).into_vec()` is abstracted to a 1-byte tag per name (the names themselves are extracted from
 // storage.rs and checked to be pairwise prefix-free, which is what justifies the abstraction).
 #![allow(unused, dead_code, unused_mut, static_mut_refs, non_snake_case)]
-pub const CAP: usize = 4;
+pub const CAP: usize = 3;
 pub const NS: usize = 3;
 pub const MREC: usize = 2;
 pub const BCAP: usize = 6;
@@ -103,11 +103,11 @@ mod harness {
                 assert!((GENESIS_FILTERED > 0) == zero, "SPEC set_scripts: genesis block filtered iff a given script starts at 0");
             }
             kani::cover!(cmd == 1 && pre.npending > 0 && n > 0, "partial with pending records");
-            kani::cover!(cmd == 2 && n == 2, "delete of two scripts");
-            kani::cover!(cmd == 0 && n == 2 && ids[0] == ids[1], "replace with a duplicated script");
+            kani::cover!(cmd == 2 && n == NCMD, "delete");
+            kani::cover!(cmd == 0 && n == NCMD && (NCMD < 2 || ids[0] == ids[1]), "replace (with a duplicated script when two are given)");
         }
     }
-    #[kani::proof] #[kani::unwind(10)] fn set_scripts_q() { set_scripts::<2, 1>(); }
+    #[kani::proof] #[kani::unwind(10)] fn set_scripts_q() { set_scripts::<1, 1>(); }
     #[kani::proof] #[kani::unwind(10)] fn set_scripts_t() { set_scripts::<2, 2>(); }
 
     /// O8.1: crash at any write boundary of update_filter_scripts.  `DB.crash_after = k`: the first k write operations (a batch is
